@@ -316,6 +316,7 @@ Ltac borrow_facts1 :=
 Ltac prep :=
   unfold Greg, finset, MAXC, MAXE, f_OS_OBJECT_GLOBAL_REFCNT in *; conj_hyps; b_facts.
 Ltac finish :=
+  try match goal with H : contract_r _ _ _ = true |- _ => cbv beta iota delta [contract_r MAXE MAXC f_OS_OBJECT_GLOBAL_REFCNT] in H end;
   bool_hyps; repeat match goal with H : _ \/ _ |- _ => destruct H end; bool_hyps; leave_facts; try congruence; unfold sv in *;
   repeat match goal with H : s32 (ea _) = _ |- _ => rewrite H in * end;
   simp_goal; cbn [held held0 hb hk one b2z] in *; borrow_facts; borrow_facts1; s32_norm;
@@ -336,7 +337,6 @@ Proof.
   pose proof (Greg_bounds r pv HG HP) as BD.
   spec_kinds HL. spec_kinds HP. clear HL HP.
   destruct p; cbn [tstep1 effect1 wfpc] in *; try discriminate.
-  all: cbv beta iota delta [contract_r MAXE] in Hct.
   all: unfold guard, after_irel, lv_entry, wake_entry, wake_tail, wake_rel, end_pc in *.
   all: repeat match goal with c : kont |- _ => destruct c end.
   all: prep.
